@@ -9,6 +9,8 @@
 """
 from __future__ import annotations
 
+import asyncio
+
 import os
 
 from ..common import B, Ctx
@@ -120,6 +122,78 @@ def collect(ctx: Ctx):
                             "res": res, "via": "LAN.send"})
 
     vloop.run(loop, go())
+
+    # the reply stream as the transport delivers it: an authentic response cut in two at every position; an altered response that is not the
+    # one the blocking read waits for (behind a good response in the same / the next segment, or already queued when the next send starts)
+    plan = {"mode": None}
+
+    def respond(tr, packets):
+        m = plan["mode"]
+        if m is None or packets[0][5] & 0xF == 1:
+            for q in packets:
+                loop.call_soon(tr.feed, q)
+        elif m == "cut":
+            c = plan["cut"]
+            loop.call_at(loop.time() + 0.01, tr.feed, plan["p"][:c])
+            loop.call_at(loop.time() + 0.02, tr.feed, plan["p"][c:])
+        elif m == "same":
+            loop.call_soon(tr.feed, plan["p"] + plan["q"])
+        elif m == "next":
+            loop.call_soon(tr.feed, plan["p"])
+            loop.call_soon(tr.feed, plan["q"])
+        else:
+            loop.call_soon(tr.feed, plan["p"])
+    dev.respond = respond
+
+    async def go2():
+        l = LAN("10.0.0.1", 6444, 77)
+
+        async def ready():
+            if l._protocol is None or not l._alive or not l._protocol.authenticated:
+                plan["mode"] = None
+                await l.authenticate(tok, key)
+            return dev.sess[net.conns[-1].cid]["key"]
+
+        async def ask():
+            try:
+                r = await l.send(b"\xaa\x01", retries=1)
+                return {"k": "frame", "f": B(r[-1]) if r else []}
+            except Exception as e:  # noqa: BLE001 - code under test
+                return {"k": "raise", "exc": type(e).__name__}
+        for n in [0, 1, 14, 20, 34]:
+            f = rbytes(rng, n)
+            skey = await ready()
+            L = len(landev.v3_enc_packet(skey, landev.v2_wrap(f, 77), 0))
+            for c in (range(1, L) if n in (1, 20) or not ctx.quick else [1, 2, 5, 6, 7, 8, 9, L - 33, L - 32, L - 31, L - 1]):
+                skey = await ready()
+                plan.update(mode="cut", p=landev.v3_enc_packet(skey, landev.v2_wrap(f, 77), c & 0xFFF, 3, padbytes=rbytes(rng, 16)), cut=c)
+                res = await ask()
+                pk = landev.v3_enc_packet(skey, f, c & 0xFFF)         # reference packet of the frame that must come back (as in the section above)
+                vectors.append({"kind": "decresp", "payload": B(f), "ctr": c & 0xFFF, "p": B(pk), "o": v3_oracle(skey, pk), "res": res,
+                                "via": f"LAN.send, reply delivered in two segments cut at {c}"})
+        for k in range(ctx.pick(150, 3000)):
+            skey = await ready()
+            frame = rbytes(rng, rng.choice([0, 6, 13, 20, 34]))
+            payload = landev.v2_wrap(frame, 77)
+            ctr = rng.randrange(65536)
+            pk = landev.v3_enc_packet(skey, payload, ctr, 3, padbytes=rbytes(rng, 16))
+            pos = rng.choice([rng.randrange(6, len(pk)), rng.randrange(6, len(pk)), rng.randrange(len(pk) - 32, len(pk)), 5, 6, 7])
+            q = bytearray(pk)
+            q[pos] ^= 1 << rng.randrange(8)
+            q = bytes(q)
+            mode = ["same", "next", "queued"][k % 3]
+            if mode == "queued":
+                plan.update(mode="good", p=pk)
+                await ask()
+                net.conns[-1].feed(q)                # arrives while the client is idle
+                await asyncio.sleep(0.5)
+            plan.update(mode=mode if mode != "queued" else "good", p=pk, q=q)
+            res = await ask()
+            vectors.append({"kind": "mutant", "mut": [pos, -1], "payload": B(payload), "ctr": ctr, "orig": B(pk), "oo": v3_oracle(skey, pk),
+                            "q": B(q), "o": v3_oracle(skey, q), "o2": v2_oracle(_hs_or_frame(q, skey)), "res": res, "res2": res,
+                            "via": "LAN.send, altered response " + {"same": "behind a good one in the same segment", "next": "in the segment after a good one",
+                                                                      "queued": "already queued when the next send starts"}[mode]})
+    vloop.run(loop, go2())
     return vectors
 
 
